@@ -74,6 +74,9 @@ def rule_n1_n2(chk: Check) -> None:
         ("IPv6 literal, no port", "::1", None, "/x", "", "[::1]", "/x"),
         ("IPv6 literal, other port", "2001:db8::1", 1966, "/a", "b", "[2001:db8::1]:1966", "/a"),
         ("IPv6 literal, default port", "::1", 1965, "", "", "[::1]", "/"),
+        # escaped reserved characters are data, not delimiters: they stay escaped
+        ("escaped slash in path, escaped ampersand in query", "example.org", None, "/files/a%2Fb", "q=salt%26pepper&x=1", "example.org", "/files/a%2Fb"),
+        ("escaped percent and equals", "example.org", None, "/100%25/x%3Dy", "k=%3D%2B", "example.org", "/100%25/x%3Dy"),
     ]
     for name, host, port, path, query, want_auth, want_path in samples:
         interp = Interp(chk.proj, fi)
